@@ -115,7 +115,8 @@ impl<'a> RtcpPacketWriter for RpsiBuilder<'a> {
         {
             return Err(RtcpWriteError::PaddingBitsTooLarge);
         }
-        Ok(pad_to_4bytes(self.native_bit_string.len()))
+        // 2 bytes of header (padding bit count, payload type) followed by the bit string
+        Ok(pad_to_4bytes(2 + self.native_bit_string.len()))
     }
 
     fn write_into_unchecked(&self, buf: &mut [u8]) -> usize {
